@@ -94,7 +94,8 @@ func (r *NodeManagement) processReplyDetailedDiscoveryData(message *api.Message,
 		listedEntities = append(listedEntities, ei.Description.EntityAddress.Entity)
 	}
 	for _, entity := range remoteDevice.Entities() {
-		if !r.addressEntityListContainsAddressEntity(listedEntities, entity.Address().Entity) {
+		if !r.addressEntityListContainsAddressEntity(listedEntities, entity.Address().Entity) &&
+			!slices.Equal(entity.Address().Entity, DeviceInformationAddressEntity) {
 			r.removeRemoteEntity(remoteDevice, entity.Address().Entity, data)
 		}
 	}
